@@ -76,6 +76,7 @@ type c17Scenario struct {
 	SmallRcvBuf  bool            `json:"small_receive_buffer,omitempty"`
 	Conns        []c17ConnScript `json:"connection_scripts"`
 	Ops          []c17Op         `json:"caller_script"`
+	SourceAddr   bool            `json:"source_address_configured,omitempty"` // spec.sourceAddress = 127.0.0.1, in the 16-octet form net.ParseIP gives the configuration
 	CloseEarly   bool            `json:"close_without_waiting,omitempty"`
 	CloseDelayMs int             `json:"close_delay_ms,omitempty"`
 }
@@ -1027,6 +1028,10 @@ func (p *c17Peer) awaitAS4Outcome() {
 
 // ---------------------------------------------------------------- one scenario
 
+// c17ParamProbe, when set (the C18 run of this package), is called at the end of a scenario with the
+// parameters the session was created from and the hold time variable they point to.
+var c17ParamProbe func(c *vfCase, sc *c17Scenario, params *bgp.SessionParameters, holdTimeNow time.Duration)
+
 func vfc17RunScenario(c *vfCase, sc *c17Scenario) {
 	canary := vfStartCanary()
 	defer canary.Stop()
@@ -1041,10 +1046,17 @@ func vfc17RunScenario(c *vfCase, sc *c17Scenario) {
 	c.Count("scenarios:" + sc.Class)
 
 	ht := time.Duration(sc.HoldS) * time.Second
-	sess, err := NewSessionManager(log.NewNopLogger()).NewSession(log.NewNopLogger(), bgp.SessionParameters{
+	params := bgp.SessionParameters{
 		PeerAddress: "127.0.0.1", PeerPort: uint16(p.port), MyASN: sc.MyASN, PeerASN: sc.PeerASN,
 		RouterID: net.ParseIP("10.0.0.1"), HoldTime: &ht, CurrentNode: "verif-node", SessionName: fmt.Sprintf("verif-%d", sc.ID),
-	})
+	}
+	if sc.SourceAddr {
+		params.SourceAddress = net.ParseIP("127.0.0.1")
+	}
+	if c17ParamProbe != nil {
+		defer func() { c17ParamProbe(c, sc, &params, ht) }()
+	}
+	sess, err := NewSessionManager(log.NewNopLogger()).NewSession(log.NewNopLogger(), params)
 	if err != nil {
 		c.Violation("session:new-session-error", fmt.Sprintf("scenario %d: NewSession failed: %v", sc.ID, err), sc)
 		p.finish()
@@ -1239,7 +1251,7 @@ func vfc17GenOps(r *vfRand, n int) []c17Op {
 		default:
 			op.Gap, op.GapMs = "sleep", r.Range(40, 120)
 		}
-		kind := vfPick(r, []string{"grow", "grow", "shrink", "shrink", "empty", "attributes", "attributes", "identical", "subset", "replace"})
+		kind := vfPick(r, []string{"grow", "grow", "shrink", "shrink", "empty", "attributes", "attributes", "shift-communities", "identical", "subset", "replace"})
 		if i == 0 && r.Chance(3, 4) {
 			kind = "grow"
 		}
@@ -1267,6 +1279,29 @@ func vfc17GenOps(r *vfRand, n int) []c17Op {
 						break
 					}
 				}
+			}
+		case "shift-communities":
+			// same number of communities, every value moved the same way (an element-wise comparison
+			// that only looks in one direction takes the two lists for equal)
+			d := uint32(1)
+			if r.Bool() {
+				d = ^uint32(0) // -1
+			}
+			any := false
+			for _, u := range pr {
+				if rt := cur[u]; len(rt.Comms) > 0 {
+					nr := c17Route{Prefix: rt.Prefix, LocalPref: rt.LocalPref}
+					for _, cm := range rt.Comms {
+						nr.Comms = append(nr.Comms, cm+d)
+					}
+					cur[u] = nr
+					any = true
+				}
+			}
+			if !any && len(pr) > 0 {
+				rt := cur[pr[0]]
+				rt.Comms = []uint32{64512<<16 | 300}
+				cur[pr[0]] = rt
 			}
 		case "identical":
 		case "subset":
@@ -1303,6 +1338,17 @@ func vfc17GenOps(r *vfRand, n int) []c17Op {
 			inv := op
 			inv.Kind, inv.Invalid = "invalid", vfPick(r, []string{"v6-prefix", "64-communities"})
 			inv.Routes = nil
+			if r.Bool() { // valid routes (other than the requested ones) in front of the one that is refused
+				for _, u := range vfSubset(r, c17Universe, 1, 4) {
+					inv.Routes = append(inv.Routes, vfc17Attrs(r, u))
+				}
+				inv.Kind = "invalid-after-valid"
+			}
+			if i == n-1 || r.Chance(1, 3) { // the refused call comes after the valid one: the requested set stays that of the valid one
+				inv.Gap, inv.GapMs = vfPick(r, []string{"none", "sleep"}), r.Range(1, 30)
+				ops = append(ops, op, inv)
+				continue
+			}
 			ops = append(ops, inv)
 			op.Gap, op.GapMs = "none", 0
 		}
@@ -1367,6 +1413,7 @@ func vfc17GenScenario(r *vfRand, id int) *c17Scenario {
 		sc.PeerAS4 = sc.MyASN > 0xffff || sc.PeerASN > 0xffff || r.Bool()
 	}
 	vfc17GenConnScripts(r, sc)
+	sc.SourceAddr = r.Chance(1, 4)
 	sc.Ops = vfc17GenOps(r, r.Range(3, 10))
 	if r.Chance(1, 5) {
 		sc.CloseEarly, sc.CloseDelayMs = true, vfPick(r, []int{0, 0, 1, 5, 30, 120})
@@ -1471,6 +1518,22 @@ func vfc17Directed() []*c17Scenario {
 			Conns: []c17ConnScript{{OpenStyle: "as-trans-no-cap"}, {OpenStyle: "plain"}}, Ops: []c17Op{set(routes...)}},
 		{Class: "normal", MyASN: 4200000001, PeerASN: 4200000001, PeerAS4: true, HoldS: 90, PeerHoldS: 90,
 			Conns: []c17ConnScript{{OpenStyle: "as-trans-no-cap"}, {OpenStyle: "cap-wins"}}, Ops: []c17Op{set(routes[0])}},
+		// a refused Set (valid routes in front of the refused one) is the last call; then the peer drops the
+		// idle connection: the re-sent table is the last ACCEPTED set
+		{Class: "normal", MyASN: 64512, PeerASN: 64513, PeerAS4: true, HoldS: 90, PeerHoldS: 90,
+			Conns: []c17ConnScript{{OpenStyle: "plain", Fault: "drop-idle", IdleMs: 150}, {OpenStyle: "plain"}},
+			Ops:   []c17Op{set(routes...), {Gap: "sleep", GapMs: 20, Kind: "invalid-after-valid", Invalid: "64-communities", Routes: []c17Route{{Prefix: "10.7.0.5/32", LocalPref: 100}}}}},
+		{Class: "normal", MyASN: 64512, PeerASN: 64512, PeerAS4: true, HoldS: 90, PeerHoldS: 90,
+			Conns: []c17ConnScript{{OpenStyle: "plain", Fault: "drop-idle", IdleMs: 150, RST: true}, {OpenStyle: "plain"}},
+			Ops:   []c17Op{set(routes...), {Gap: "sleep", GapMs: 20, Kind: "invalid", Invalid: "v6-prefix"}}},
+		// communities replaced by as many, all a little higher / lower
+		{Class: "normal", MyASN: 64512, PeerASN: 64513, PeerAS4: true, HoldS: 90, PeerHoldS: 90,
+			Ops: []c17Op{set(c17Route{Prefix: "10.7.1.0/24", LocalPref: 100, Comms: []uint32{65000<<16 | 100, 65000<<16 | 300}}),
+				set(c17Route{Prefix: "10.7.1.0/24", LocalPref: 100, Comms: []uint32{65000<<16 | 200, 65000<<16 | 400}}),
+				set(c17Route{Prefix: "10.7.1.0/24", LocalPref: 100, Comms: []uint32{65000<<16 | 100, 65000<<16 | 300}})}},
+		// the session is bound to a configured source address
+		{Class: "normal", MyASN: 64512, PeerASN: 64513, PeerAS4: true, HoldS: 90, PeerHoldS: 90, SourceAddr: true, Ops: []c17Op{set(routes...), set(routes[0])}},
+		{Class: "normal", MyASN: 64512, PeerASN: 64512, PeerAS4: false, HoldS: 90, PeerHoldS: 30, SourceAddr: true, Ops: []c17Op{set(routes...)}},
 		// Close while the peer sits on its OPEN reply
 		{Class: "normal", MyASN: 64512, PeerASN: 64513, PeerAS4: true, HoldS: 90, PeerHoldS: 90, CloseEarly: true, CloseDelayMs: 20,
 			Conns: []c17ConnScript{{OpenStyle: "plain", HoldOpenMs: 250}}, Ops: []c17Op{set(routes...)}},
